@@ -38,6 +38,7 @@ func main() {
 		os.Exit(2)
 	}
 	c := core.NewCtx(id)
+	checks.CurCtx = c
 	if replay != "" {
 		rf, ok := checks.Replays[id]
 		if !ok {
